@@ -1247,6 +1247,11 @@ where
     /// Send all stored packets for retransmission
     fn send_stored(&mut self) -> Vec<GenericEvent<PacketIdType>> {
         let mut events = Vec::new();
+        // The incomplete exchanges of the new connection are exactly the stored packets
+        // (a packet stored while still connecting has already been counted once)
+        if self.publish_send_max.is_some() {
+            self.publish_send_count = 0;
+        }
         self.store.for_each(|packet| {
             if packet.size() > self.maximum_packet_size_send as usize {
                 let packet_id = packet.packet_id();
